@@ -60,11 +60,17 @@ var concKeys = []string{"k1", "k2", "k3", "k4"}
 
 func genConcProg(maxG int, modes []int, merge, backup bool) *rapid.Generator[Case] {
 	return rapid.Custom(func(t *rapid.T) Case {
+		merge := merge // per case (a backup program may add a Merge goroutine below)
 		segs := []int64{400, 2000, 8192}
 		if merge {
 			segs = []int64{300, 400, 1000} // several segments, so that Merge has work to do
 		}
 		c := Case{Cfg: genConfig(modes, segs).Draw(t, "cfg")}
+		if backup && !merge && c.Cfg.Mode != 2 && rapid.IntRange(0, 3).Draw(t, "mergetoo") == 2 {
+			// a quarter of the RAM-mode backup programs also run a Merge goroutine: Backup may start while Merge is at work
+			merge = true
+			c.Cfg.Seg = rapid.SampledFrom([]int64{300, 400, 1000}).Draw(t, "mseg")
+		}
 		p := &ConcProg{DBs: rapid.IntRange(1, 2).Draw(t, "dbs"), Yield: rapid.SampledFrom([]int{0, 1, 2, 3, 5, 8}).Draw(t, "yield")}
 		if merge || backup {
 			p.DBs = 1
